@@ -21,7 +21,7 @@ REQUIRED = ['frontends/tui/controller.py:Controller.connection_got_new_message',
 
 def plan(tier, seed):
     if tier == 'quick':
-        return [{'n': 16, 'n_each': [25, 60]} for _ in range(16)]
+        return [{'n': 60, 'n_each': [25, 60]} for _ in range(16)]
     return [{'n': 420, 'n_each': [30, 120]} for _ in range(64)]
 
 
